@@ -2,6 +2,16 @@
 import json, os
 V = os.path.dirname(os.path.dirname(os.path.abspath(__file__)))
 CLAIMED = {
+ "C11": dict(
+   text="Proof: for any number of segments (induction over the segment list) the normalisation constants exist and are positive, the IMF is continuous at every "
+        "interior break, the segment integrals of N(m)/N0 sum to exactly one and each is the Riemann integral of that segment's power law (C12), evaluation follows the "
+        "zero / extrapolate / raise modes, a bin inside one segment gets that segment's constant and slope (hence the integrals of N(m) and m N(m)), total mass is linear "
+        "in N0 and from_M0 returns the requested mass; machine-checked refutation of the documented 'bins need not align with breaks'. Float instance compared with "
+        "PowerLawIMF on generated IMFs (1-6 segments, slopes incl. -1/-2, all ext spellings, exact-break masses, aligned/straddling/outside bins); quad is the oracle.",
+   design="8/C11", technique="Coq proofs by induction over segments + Coquelicot integrals + float correspondence + quad oracle",
+   note="Trusted: Coq kernel; Reals/Coquelicot axioms (evidence); FloatFun; scipy.integrate.quad inside Mtot is not modelled (closed-form second moment instead, tie at 1e-3; the "
+        "measured quad inaccuracy is a listed finding); harness."),
+
  "C13": dict(
    text="Proof: for every break list, every list of positive counts and both spacings the edges exist, are strictly increasing, contain every break and have "
         "sum(counts)+1 entries; bins built from them tile the range; lookup returns i iff lower_i <= m < upper_i and raises exactly outside; truncation changes "
